@@ -5,6 +5,7 @@ CONSTANTS
   Top = 1000000
   Alive1 = {TRUE, FALSE}
   Seq1 = {0, 1, 2, 3, 1000000}
+  Seq2 = {0, 1, 2, 3, 1000000}
 SPECIFICATION Spec
 INVARIANTS Emit Sane
 CHECK_DEADLOCK FALSE
